@@ -619,6 +619,25 @@ func modelWrite(e *Engine, st *State, fr *Frame, fn *ssa.Function, args []Val, i
 	s := streamRef(args[0])
 	n := p.sLen()
 	key := arrRoot(types.Typ[types.Uint8]) + "|[]"
+	if e.byteMode() {
+		// byte-level writer: the bytes of p are appended at the end mark of the stream
+		rs := e.resolveAlias(st, s)
+		end := bsEnd(st, rs)
+		if end.Op == OSelect {
+			st.assume(Ule(end, BVConst(maxLen, 64))) // a stream holds a physically possible number of bytes
+		}
+		old := st.cellArr("bs|data", 2, BV(8))
+		src := st.cellArr(key, 2, BV(8))
+		nw := FreshVar("Hw|bs|data", old.S)
+		j := Bound("j", BV(128))
+		jr, ji := Extract(127, 64, j), Extract(63, 0, j)
+		inR := And(Eq(jr, rs), Ule(end, ji), Ult(Sub(ji, end), n))
+		st.assume(Forall([]*Term{j}, Eq(Select(nw, j), Ite(inR, Select(src, Concat(p.sRef(), Add(p.sOff(), Sub(ji, end)))), Select(old, j)))))
+		st.mem["bs|data"] = nw
+		st.written["bs|data"] = true
+		st.storeLeaf("bs|end", []*Term{rs}, Add(end, n))
+		return Val{RT, append([]*Term{n}, nilError().L...)}, true
+	}
 	if n.Op == OConst && n.Val == 1 {
 		b := st.loadLeaf(key, []*Term{p.sRef(), p.sOff()}, BV(8))
 		e.writeTok(st, s, mkTok(tkRaw, nil, ZExt(b, 64), nil))
